@@ -36,7 +36,8 @@ func c45Weight(c *c45Ch, withNil bool) *wrapperspb.UInt32Value {
 // c45GenEDS: <=2 localities (id in {unset, A, B}, priority in {0,1,2,5},
 // weight in {0,1,2^32-1} (+unset in thorough)), each with <=2 endpoints
 // (weight in {unset,0,1,2^32-1}; address equal to an earlier endpoint's or
-// fresh: every equality pattern; thorough: also "endpoint without address";
+// fresh: every equality pattern; thorough with one locality: also "endpoint
+// without address";
 // quick: at most 2 endpoints in total);
 // for <=1 locality additionally cluster name {set, empty} and drop policy
 // {none, per-hundred, invalid denominator}.
@@ -66,7 +67,7 @@ func c45GenEDS(c *c45Ch) proto.Message {
 		for j := 0; j < nEp; j++ {
 			ep := &v3endpointpb.LbEndpoint{LoadBalancingWeight: c45Weight(c, true)}
 			extra := 0
-			if c.Thorough {
+			if c.Thorough && nLoc == 1 {
 				extra = 1
 			}
 			id := c.N(addrIDs + 1 + extra)
